@@ -25,6 +25,13 @@ Tree(i) ==
       [] i = 9 -> T("D", <<T("S", <<T("BL", <<T("S", <<Lf("Raw"), Lf("L")>>), T("S", <<T("Q", <<Lf("L")>>), Lf("T")>>)>>),
                                     T("S", <<T("S", <<T("S", <<Lf("L")>>)>>)>>)>>),
                           T("S", <<Lf("L")>>)>>)
+      \* shapes that only one particular source text produces (the text is carried along):
+      \* an item that starts with a list is merged into the enclosing list, what follows belongs to the last merged item
+      [] i = 10 -> [k |-> "D", c |-> <<T("BL", <<T("S", <<T("BL", <<T("S", <<>>)>>), Lf("L")>>)>>)>>,
+                    md |-> "- - a\n    - b\n\n  tail\n"]
+      \* an item that starts with a code block has an empty text of its own
+      [] i = 11 -> [k |-> "D", c |-> <<T("S", <<T("BL", <<T("S", <<Lf("Raw"), Lf("L")>>), T("S", <<>>)>>)>>)>>,
+                    md |-> "# h\n\n- ```\n  code\n  ```\n\n  p\n- x\n"]
 
 VARIABLE hist
 GInit == hist = <<>>
